@@ -573,6 +573,27 @@ pub fn exec_fd(w: &mut World, op: &Op, rest: &str, env: &mut Env) {
             w.f[dst] = r.value();
             env.res(Pool::F, dst);
         }
+        "todecp" => {
+            // base change with an explicit target precision (with_base_and_precision)
+            let x = &w.f[a];
+            if !tame(x) || x.repr().exponent().abs() > 600 {
+                return env.skip();
+            }
+            let r = x.clone().with_base_and_precision::<10>(op.n.max(0) as usize);
+            env.emit_u64("exact", matches!(r, Approximation::Exact(_)) as u64);
+            w.d[dst] = r.value().with_rounding();
+            env.res(Pool::D, dst);
+        }
+        "tobinp" => {
+            let x = &w.d[a];
+            if !tame(x) || x.repr().exponent().abs() > 200 {
+                return env.skip();
+            }
+            let r = x.clone().with_base_and_precision::<2>(op.n.max(0) as usize);
+            env.emit_u64("exact", matches!(r, Approximation::Exact(_)) as u64);
+            w.f[dst] = r.value().with_rounding();
+            env.res(Pool::F, dst);
+        }
         "viahex" | "viaoct" => {
             // base 2 -> 16 (or 8) -> 2: the second conversion takes the "old base is a power of the new base" shortcut
             let x = &w.f[a];
